@@ -252,7 +252,7 @@ def run(ck):
                 ok, why = callers_dominated(crate, fn, g['callee'], g.get('count', 1))
                 ck.ob('R7.3', 'callers-dominated|' + key, ok, s['loc'], why, fn=fn['path'])
             elif gk == 'layout_flow_positive':
-                ok, why = layout_flow_positive(crate)
+                ok, why = layout_flow_positive_general(crate)
                 ck.ob('R7.3', 'layout-flow-positive|' + key, ok, s['loc'], why, fn=fn['path'])
             elif gk == 'shared':
                 # the row rests on obligations of another property's check: re-run them on the same facts
@@ -579,6 +579,29 @@ def callers_dominated(crate, fn, callee, count):
         if len(gs) < count:
             return False, 'call of %s in %s is dominated by %d `%s(..)?` (need %d)' % (name, short(f2['path']), len(gs), callee, count)
     return True, 'all %d caller(s) dominated by %d `%s(..)?`' % (len(sites), count, callee)
+
+
+class _Collect:
+    def __init__(self):
+        self.obs, self.floors = [], []
+
+    def ob(self, rule, key, ok, loc='', detail='', nontrivial=True, fn=None):
+        self.obs.append((key, ok, detail))
+
+    def floor(self, rule, count, minimum, what):
+        self.floors.append((what, count, minimum))
+
+
+def layout_flow_positive_general(crate):
+    """the divisors of the cursor are flow counts and every flow is built with a count of at least 1 (the lower-bound reading of C12 R12.8,
+    which follows the count through lets, closures, helper functions and Option plumbing)"""
+    import rules.c12 as c12
+    col = _Collect()
+    c12.flow_counts_positive(col, crate, 'R12.8')
+    bad = [(k, d) for k, ok, d in col.obs if not ok] + [('floor ' + w, '%d < %d' % (c, m)) for w, c, m in col.floors if c < m]
+    if bad:
+        return False, '; '.join('%s: %s' % b for b in bad[:3])
+    return True, '%d divisor / construction obligations of C12 R12.8 hold: every count that reaches the modulo is at least 1' % len(col.obs)
 
 
 def layout_flow_positive(crate):
